@@ -180,7 +180,7 @@ def merge(shards):
 
 
 def jsonable(x, depth=0):
-    if depth > 12:
+    if depth > 80:
         return repr(x)
     if isinstance(x, (str, int, float, bool)) or x is None:
         return x
